@@ -39,7 +39,8 @@
 
    OUTSIDE THE MODEL: message keys/values (only offsets), responses for a foreign partition, exceptions of resp.messages other
    than ConsumerFetchSizeTooSmall (C12), a client whose send_* raise or return fired Deferreds, user callbacks on the
-   start/shutdown/commit Deferreds that re-enter the consumer, a processor that calls anything but stop()/commit(),
+   start/shutdown/commit Deferreds that re-enter the consumer, a processor that calls anything but stop()/commit()/shutdown()
+   (those three are modelled: EPlan 1 / 2 / 3), in particular a processor that calls start(),
    logging, the LoopingCall interval arithmetic (Sched looper carries no delay), constructor argument validation. *)
 From AV Require Import Base.Util.
 
